@@ -31,6 +31,10 @@ pub struct SimCompiler {
     pub fail_op_at: Option<usize>,
     pub cfail_fired: RefCell<u32>,
     pub record: bool,
+    /// compile calls allowed per resolution (the loop's own cap + slack); one more is an overrun
+    pub round_limit: Option<usize>,
+    pub compiles: usize,
+    pub overrun: bool,
 }
 
 impl SimCompiler {
@@ -43,6 +47,9 @@ impl SimCompiler {
             fail_op_at: None,
             cfail_fired: RefCell::new(0),
             record: true,
+            round_limit: None,
+            compiles: 0,
+            overrun: false,
         }
     }
 
@@ -67,6 +74,14 @@ impl Compiler for SimCompiler {
     type Expression = tir::Expression;
 
     fn compile(&mut self, t: &AnyTir) -> Result<CompiledTx, CError> {
+        self.compiles += 1;
+        if let Some(limit) = self.round_limit {
+            if self.compiles > limit {
+                // the resolve loop is past its own cap: break it (bounded liveness, C14/P3)
+                self.overrun = true;
+                return Err(CError::FormatError("simulation: round cap exceeded".into()));
+            }
+        }
         let n = self.rounds.len();
         if self.fail_compile_at == Some(n) {
             *self.cfail_fired.borrow_mut() += 1;
